@@ -10,3 +10,4 @@ pub proof fn lemma_scalars_bytes_step(rs: Seq<Scalar>, k: int)
     assert(rs.take(k + 1).last() == rs[k]);
 }
 pub broadcast axiom fn ax_cp_bytes_len(c: CP) ensures #[trigger] cp_bytes(c).len() == 32;
+pub open spec fn promise_val(p: Option<u64>) -> u64 { match p { Some(v) => v, None => 0 } }
